@@ -299,6 +299,18 @@ def call_builtin(eng, s, fr, name, args, kwargs, lineno, node):
         if not v.known_finite:
             raise Unsupported("floor of possibly non-finite value")
         return SFloat(FIN, z3.ToReal(z3.ToInt(v.val)))
+    if name == 'np.clip' and len(args) == 3 and isinstance(args[0], SArr):
+        lo, hi = to_float(args[1]), to_float(args[2])
+        a0 = args[0]
+        snap = _Snap(dict(s.heap))
+        if a0.ndim != 1 or a0.elem != 'float':
+            raise Unsupported("np.clip of a non-float or n-d array")
+        # numpy: minimum(maximum(x, lo), hi); NaN stays NaN
+
+        def clipped(k):
+            x = cell(snap, a0, k)
+            return merge_values(And(Not(x.is_nan()), x < lo), lo, merge_values(And(Not(x.is_nan()), x > hi), hi, x))
+        return new_lambda_array(s, 'float', 'float64', a0.length(), clipped, 'clip')
     if name in ('np.any', 'any'):
         v = args[0]
         if isinstance(v, SArr):
@@ -463,12 +475,18 @@ def seq_len(s, v):
     raise Unsupported(f"len of {type(v).__name__}")
 
 
+OOB_CAST = z3.Function('oob_cast', z3.RealSort(), z3.IntSort())
+
+
 def float_to_int(v):
-    """numba float -> int64 cast: truncation toward zero for finite values, unconstrained otherwise"""
+    """float -> int64 cast: truncation toward zero for finite values whose truncation fits int64; unconstrained
+    otherwise (C / numpy leave it undefined - INT64_MIN on x86)"""
     fl = z3.ToInt(v.val)
     tr = z3.If(v.val >= 0, fl, -z3.ToInt(-v.val))
     if Mode.int_mode == 'bv64':
         raise Unsupported("float to int in bv mode")
+    fits = z3.And(v.val > -(2 ** 63) - 1, v.val < 2 ** 63)
+    tr = z3.If(fits, tr, OOB_CAST(v.val))
     if v.known_finite:
         return SInt(tr)
     from .values import nf_cast
@@ -848,6 +866,17 @@ def load_fancy(eng, s, fr, arr, items, lineno):
                        _all_cells(s, idx, lambda v: And(v >= 0, v < r)), lineno)
             return new_lambda_array2(s, arr.elem, arr.base.dtype, n, c,
                                      lambda i, j: cell2(snap, arr, cell(snap, idx, i), j), 'take')
+        if arr.ndim == 2 and len(items) == 2 and items[0][0] == 'mask' and _full_slice(items[1]):
+            # rows selected by a boolean mask, in order
+            mask = items[0][1]
+            r, c = arr.shape()
+            eng.oblige(fr, s, 'index', 'mask-length', mask.length() == r, lineno)
+            if mask.base.kind == 'sym':
+                st.name_content(s, mask.base)
+            m, P, R = _compress_maps(s, r, mask, snap)
+            res = new_lambda_array2(s, arr.elem, arr.base.dtype, m, c, lambda i, j: cell2(snap, arr, P(i), j), 'compress2')
+            res.base.meta.update({'pos': P, 'rank': R, 'mask': mask, 'count': m})
+            return res
         raise Unsupported("fancy indexing form")
     kind, idx = items[0]
     n = arr.length()
@@ -855,6 +884,10 @@ def load_fancy(eng, s, fr, arr, items, lineno):
         eng.oblige(fr, s, 'index', 'fancy-index-in-bounds', _all_cells(s, idx, lambda v: And(v >= 0, v < n)), lineno)
         return new_lambda_array(s, arr.elem, arr.base.dtype, idx.length(), lambda k: cell(snap, arr, cell(snap, idx, k)), 'take')
     return compress(eng, s, fr, arr, idx, lineno)
+
+
+def _full_slice(it):
+    return it[0] == 'slice' and it[1] is None and it[2] is None and it[3] is None
 
 
 def _all_cells(s, arr, pred):
@@ -866,6 +899,28 @@ def _all_cells(s, arr, pred):
 
 def store_fancy(eng, s, fr, arr, items, v, lineno):
     snap = _Snap(dict(s.heap))   # operands are read as they are NOW (numpy evaluates eagerly)
+    if arr.ndim == 2 and len(items) == 2 and items[0][0] == 'mask' and _full_slice(items[1]) and isinstance(v, SArr) \
+            and v.ndim == 2 and v.base.meta.get('mask') is not None and v.base.meta['mask'].base is items[0][1].base \
+            and arr.base.kind == 'sym' and len(arr.dims) == 2 and all(d[0] == 'rng' for d in arr.dims):
+        # a[m, :] = b[m, :] with the same mask m: the selected rows receive their own rows of b
+        mask = items[0][1]
+        base = arr.base
+        r, c = arr.shape()
+        rank = v.base.meta['rank']
+        (_, off0, st0, _n0), (_, off1, st1, _n1) = arr.dims
+        if not (st0.concrete and st0.v == 1 and st1.concrete and st1.v == 1):
+            raise Unsupported("masked row store through a strided view")
+        eng.oblige(fr, s, 'store', 'mask-length', mask.length() == r, lineno)
+        eng.oblige(fr, s, 'store', 'row-width', v.shape()[1] == c, lineno)
+        old_read = st.content_reader(base, s.heap[base.id])
+
+        def newrows(ix):
+            i, j = ix[0] - off0, ix[1] - off1
+            cond = And(i >= 0, i < r, j >= 0, j < c, to_bool(cell(snap, mask, i)))
+            return merge_values(cond, st.coerce_elem(base, cell2(snap, v, rank(i), j), None), old_read(ix))
+        s.heap[base.id] = st.fn_content(newrows)
+        st.name_content(s, base)
+        return
     if len(items) != 1 or arr.ndim != 1:
         raise Unsupported("fancy store form")
     kind, idx = items[0]
@@ -929,14 +984,9 @@ def store_fancy(eng, s, fr, arr, items, v, lineno):
 
 # ---------------------------------------------------------------------- operations with assumed contracts
 
-def compress(eng, s, fr, arr, mask, lineno):
-    """arr[mask]: cells with mask true, in order.  Assumed contract: the result has some length m,
-    there is a strictly increasing index map pos[0..m) into arr hitting exactly the true cells."""
-    snap = _Snap(dict(s.heap))   # operands are read as they are NOW (numpy evaluates eagerly)
-    n = arr.length()
-    eng.oblige(fr, s, 'index', 'mask-length', mask.length() == n, lineno)
-    if mask.base.kind == 'sym':
-        st.name_content(s, mask.base)
+def _compress_maps(s, n, mask, snap):
+    """assumed contract of boolean-mask selection over n positions: a count m, a strictly increasing map
+    pos[0..m) onto exactly the true positions, and its inverse rank"""
     m = SInt.fresh('cnt')
     pos = z3.Function(fresh_name('pos'), z3.IntSort(), z3.IntSort())
     s.assume(And(m >= 0, m <= n))
@@ -953,6 +1003,18 @@ def compress(eng, s, fr, arr, mask, lineno):
                     patterns=lambda j: [R(j)]))
     # P is injective, so the rank of a selected position is its index in the result
     s.assume(forall('int', lambda k: Implies(And(k >= 0, k < m), R(P(k)) == k), patterns=lambda k: [P(k)]))
+    return m, P, R
+
+
+def compress(eng, s, fr, arr, mask, lineno):
+    """arr[mask]: cells with mask true, in order.  Assumed contract: the result has some length m,
+    there is a strictly increasing index map pos[0..m) into arr hitting exactly the true cells."""
+    snap = _Snap(dict(s.heap))   # operands are read as they are NOW (numpy evaluates eagerly)
+    n = arr.length()
+    eng.oblige(fr, s, 'index', 'mask-length', mask.length() == n, lineno)
+    if mask.base.kind == 'sym':
+        st.name_content(s, mask.base)
+    m, P, R = _compress_maps(s, n, mask, snap)
     res = new_lambda_array(s, arr.elem, arr.base.dtype, m, lambda k: cell(snap, arr, P(k)), 'compress')
     res.base.name = 'compress'
     res.base.meta.update({'pos': P, 'rank': R, 'mask': mask, 'count': m})
